@@ -5,14 +5,79 @@ import os
 
 VERIF = os.path.dirname(os.path.dirname(os.path.abspath(__file__)))
 
+def M(category, ref, text, note, technique):
+    return dict(category=category, design_ref=ref, text=text, note=note, technique=technique)
+
+HELD = " Held = no refuting observation on the executions listed in the evidence; nothing is proved."
+
 META = {
-    "C11": dict(
-        category="exploration", design_ref="§6 C11",
-        text="Runs the real codec on seed-determined specs covering all ids, every public-name length 1..255, key lengths and suite lists; "
-             "an independent section-4 parser and live crypto/tls client/server ECH handshakes act as oracles; every strict prefix and "
-             "single-byte mutation of sampled encodings goes through the parser under a panic guard. Held = no refuting observation on the listed executions.",
-        note="Trusts the harness' independent parser and crypto/tls of go1.24.0 as the conforming peer; sampled, not exhaustive, over spec contents.",
-        technique="runtime monitor: differential oracle (independent parser + live crypto/tls peers) over generated and mutated encodings"),
+    "C02": M("exploration", "§6 C02",
+        "Takes hellos that ARE accepted (first flights of real crypto/tls clients, and offers sealed by an independent RFC 9180 sender) and runs NewConn on every single-bit flip of each ClientHello body "
+        "(exhaustive per hello) plus wrong-key / wrong-info / wrong-suite / wrong-config-id substitutions, enc and payload truncations and payload transplants; acceptance of any modified input, "
+        "or a non-transparent fall-back of a still-valid hello, refutes." + HELD,
+        "Trusts crypto/tls as spec-consistent sealer, the harness HPKE sender (RFC 9180 vectors) and the independent TLS codec; base hellos are sampled.",
+        "runtime monitor: mutation of accepted inputs with an acceptance oracle at the NewConn boundary"),
+    "C03": M("exploration", "§6 C03",
+        "The generator commits to a ClientHelloInner first, derives outer hello, compression run, padding and HPKE payload from it, and the monitor compares the first record NewConn delivers byte for byte with that inner hello "
+        "(and ServerName/ALPNProtos with its values); all (run start, run length) positions for 7-entry lists are enumerated, layouts and sizes up to the 16384-byte record limit are PRNG-drawn." + HELD,
+        "Trusts the generator (validated at the start of every run against a plain crypto/tls ECH server, incl. compressed offers) and the HPKE sender (RFC vectors).",
+        "runtime monitor: generate-from-the-answer differential oracle over ECH offers"),
+    "C04": M("exploration", "§6 C04",
+        "Applies each catalogued rule violation (R1..R13, single and double faults, at PRNG-chosen applicable positions) to authentic offers whose unfaulted control is accepted, and every length-field truncation of outer hellos; "
+        "a tap on the client-side transport checks the error class, that exactly one matching fatal alert is written, that the transport is closed and that nothing is readable from the Conn." + HELD,
+        "Allowed error classes are as wide as the draft allows; structurally damaged outer hellos (R14) are only judged for non-acceptance and alert consistency.",
+        "runtime monitor: fault-injected inputs with a transport tap (alert bytes, Close) as oracle"),
+    "C05": M("exploration", "§6 C05",
+        "Feeds syntactically valid ClientHellos from an independent byte-level generator (foreign encodings, GREASE, 60 B..16 KiB, legacy versions, all ECH non-acceptance states, three key-set kinds, real crypto/tls TLS1.2/1.3 flights) "
+        "through NewConn followed by random record streams in both directions under random chunking; byte equality at the taps and agreement of ServerName/ALPNProtos with crypto/tls' ClientHelloInfo (or the independent codec) decide." + HELD,
+        "Single-record hellos with one host_name entry and unique extension types only; crypto/tls and tlswire are the independent stacks.",
+        "runtime monitor: pass-through conservation at transport taps + differential accessor check"),
+    "C06": M("exploration", "§6 C06",
+        "Executes every history of client/backend records up to a length bound (3 quick, 4 thorough; 19 record kinds incl. each ill-formed retry) and PRNG-drawn histories up to length 14 on the real Conn, "
+        "comparing each step with a reference state machine written from the statement: forwarded verbatim / replaced by the reconstructed inner hello / abort with class, alert, close." + HELD,
+        "Backend records are well-formed; the model is the statement's reading that exactly one HelloRetryRequest arms exactly one retry.",
+        "runtime monitor: online trace checker against a reference state machine over enumerated histories"),
+    "C07": M("fault_enumeration", "§6 C07",
+        "Replays accepted-ECH, ECH+HelloRetryRequest and pass-through flows with record lengths covering 0..2^14+256 under every combination of transport read chunking, caller buffer size and backend write split, "
+        "and injects a transport EOF / error / error-with-data at EVERY byte offset of the client stream of small flows and write failures at every 7th offset; conservation and order over the tap logs decide "
+        "(thorough: reader and writer on separate goroutines under the race detector)." + HELD,
+        "Tolerances: a cut inside the first record is a NewConn error; a cut inside a retried hello may deliver none or the raw partial record. All record lengths only in the thorough tier (stride 97 in quick).",
+        "runtime monitor: fault enumeration at every byte offset with conservation/order oracle over tap logs; race detector"),
+    "C09": M("exploration", "§6 C09",
+        "Metamorphic check: for offers sealed to a target key K, every key list of length <= 3 (K at each position or absent; neighbours from same/other id x same/disjoint/partial suites x same/other public name) and sampled lists of length 4 "
+        "must give the same acceptance, error class, forwarded bytes and accessors as the single-key (or no-key) baseline, for the first hello and for hello -> HRR -> retried hello." + HELD,
+        "Baselines come from the same run; three (thirty in thorough) target offers.",
+        "runtime monitor: metamorphic equality against in-run baselines over enumerated key lists"),
+    "C11": M("exploration", "§6 C11",
+        "Runs the real codec on seed-determined specs covering all ids, every public-name length 1..255, key lengths and suite lists; an independent section-4 parser and live crypto/tls client/server ECH handshakes act as oracles; "
+        "every strict prefix and single-byte mutation of sampled encodings goes through the parser under a panic guard." + HELD,
+        "Trusts the harness' independent parser and crypto/tls of go1.24.0 as the conforming peer; sampled, not exhaustive, over spec contents.",
+        "runtime monitor: differential oracle (independent parser + live crypto/tls peers) over generated and mutated encodings"),
+    "C12": M("exploration", "§6 C12",
+        "Decodes hostile DNS inputs (45 compression-pointer shapes at 13 name positions, lying counts, truncated/over-long RDATA for every decoder type, mutations, up to 64 KiB) in helper processes that log each input before decoding and "
+        "self-monitor cumulative heap allocation and CPU time against a polynomial budget, check the Go type of every decoded RR, and serve a sample as DoH bodies to a real Resolver under a panic guard; thorough adds a race/checkptr build." + HELD,
+        "Budgets: 1 MiB + 16 n^2 bytes allocated and 5 CPU-seconds per call (never wall-clock). Inputs are sampled.",
+        "runtime monitor: resource-budget sanitizer (allocation/CPU counters) + panic guard + type-table assertion in isolated child processes"),
+    "C13": M("exploration", "§6 C13",
+        "Round-trips generated messages through Bytes/DecodeMessage, compares Bytes() byte for byte with an independent RFC 1035/9460 encoder and field by field with golang.org/x/net/dns/dnsmessage, decodes dnsmessage-built packets "
+        "(with name compression, all record types of the statement, arbitrary SvcParams) and checks AddPadding (length multiple of 128, question preserved, one padding option) for every name length 1..253." + HELD,
+        "x/net dnsmessage v0.42.0 and the harness' RFC 9460 RDATA codec are the independent side; representation choices (root as \"\", nil vs empty) are normalised.",
+        "runtime monitor: differential testing against an independent codec in both directions"),
+    "C14": M("exploration", "§6 C14",
+        "Resolves generated zone universes (alias chains and loops, CNAME chains, service records, error rcodes, poisoned answers owned by other names) through a fake DoH server built on an independent encoder that logs every query as seen on the wire; "
+        "a relational oracle checks query-name legality and provenance, the query bound, record ownership/priority order, address attribution, rcode mapping and the treatment of over-long names." + HELD,
+        "Relational (not exact) on long alias chains; mixed alias/service RRsets are not generated; cache disabled.",
+        "runtime monitor: server-side query log + relational oracle against a zone model"),
+    "C15": M("exploration", "§6 C15",
+        "Compares the sequence yielded by Targets with a reference implementation written from the statement for random ResolveResults x six networks x early termination points, and deep-compares the result "
+        "(including the hidden capacity region of every slice) before and after enumeration." + HELD,
+        "Order inside one record's contribution follows the input lists; ALPN compared as a set.",
+        "runtime monitor: reference-model comparison + deep state snapshot (purity) check"),
+    "C20": M("exploration", "§6 C20",
+        "Runs histories of publishes against a fake Cloudflare API (pagination, PATCH merge, failure injection, full request log) and compares results, request log and the stored records with a model store: one result per target in order, "
+        "only the ech parameter changed, no PATCH when current, records on later pages found, non-targets untouched, failures isolated." + HELD,
+        "The fake API follows Cloudflare's documented envelope (count = items on this page); HTTPS names unique per zone.",
+        "runtime monitor: request-log and store-diff oracle against a model of the API"),
 }
 
 ALL = ["C%02d" % i for i in range(1, 21)]
